@@ -540,6 +540,10 @@ func (r *RefRun) decide(s *Step) bool {
 	case Impossible:
 		oc.What = "stuck-deploy"
 		r.setAll(s.ID, pluginOutputs, map[string]Status{"starting.started": I, "outputs.success": I, "outputs.error": I, "outputs.cancelled_early": I}, N)
+		if stopped {
+			// it waits for a deployment configuration that will never come; the stop condition closes it
+			r.set(s.ID, "closed", "result", Produced, map[string]any{"cancelled": true, "close_requested": false})
+		}
 		return true
 	case Never, Unknown:
 		oc.What = "stuck-deploy"
